@@ -13,3 +13,5 @@ Definition c02s_topo (nodes : list label) (edges : list (label * label)) : optio
   topo_sort label_cmp nodes edges.
 Definition c02s_merge (os : list (list label)) : option (list label) :=
   merge_orders label_cmp os.
+Definition c02s_implicit (os : list (list label)) : option (list label) :=
+  implicit_orders label_cmp os.
